@@ -1,6 +1,7 @@
 """C15 - Column profiles report exact counts, extremes and frequencies.
 
-Case: {"type": T, "values": [v, ...], "cut": k | None, "rep": r (optional, default 1)}
+Case: {"type": T, "values": [v, ...], "cut": k | None, "rep": r (optional, default 1),
+       "reads": [k0, k1, ...] (optional: row counts at which ONE frame object is profiled while it grows by append)}
   T in INTEGER DOUBLE DECIMAL VARCHAR BOOLEAN DATE TIMESTAMP ARRAY STRUCT UNTYPED.
   The frame has one column "c" of that type (UNTYPED: a plain name schema) holding `values`
   repeated `rep` times.  Values are stored in a form the oracle can compute with exactly:
@@ -16,7 +17,10 @@ Case: {"type": T, "values": [v, ...], "cut": k | None, "rep": r (optional, defau
   and None is a null everywhere.
 Observed: {"whole": profile of the frame, "estimate": estimate_cardinality(),
            "cut": profile(a) + profile(b) at the designated cut (TableProfile.__add__),
-           "quads": [[count, missing, minimum, maximum] of profile(a)+profile(b) for every cut 1..n-1]}
+           "quads": [[count, missing, minimum, maximum] of profile(a)+profile(b) for every cut 1..n-1],
+           "session": [[k, profile | None, estimate | None], ...] what .profile returned on ONE frame object that was
+                      built with the first k0 rows, read, grown by DataFrame.append to k1 rows, read, ... and finally
+                      grown to all n rows and read (last entry, k = n)}
   or {"raise": exception class name, "where": ...}."""
 import ast
 import datetime
@@ -39,14 +43,19 @@ LEVEL_TEXT = ("Machine-checked Coq theorems, for every column (list of optional 
               "under ColumnProfile.__add__ (all-null batches included). The model is tied to profiler.py by running DataFrame.profile and "
               "TableProfile.__add__ on generated frames of every supported type and evaluating the model on the same columns inside Coq "
               "(all fields compared; every cut's additive fields compared); a recomputation oracle checks each claimed statistic on the "
-              "implementation's own output.")
+              "implementation's own output. Round 2: one frame object over time is part of the model (operations DataFrame.append and "
+              "DataFrame.profile; theorem: every read returns the profile of the rows the frame holds at that moment) and of every case "
+              "(profile, append, profile ... on one object, replayed in the model and judged clause by clause by the oracle); text "
+              "longer than 64 characters goes through model and oracle (the sketch sees the whole strings).")
 LEVEL_NOTE = ("Trusted: Coq kernel + vm_compute; the hand-written model; numbers modelled as exact fixed-point integers (the generator "
               "keeps DOUBLE/DECIMAL values on a 10^-6 grid, where binary64 rounding preserves order, equality, truncation and the %f "
               "rendering); xxhash and numpy.histogram enter as oracle tables recomputed by the harness (theorems carry 'histogram counts "
               "sum to the sample size' and, for merged sketches only, nothing); the merged histogram of a sum is the distogram's (C13) "
               "and only its emptiness is compared; the estimate from a full sketch (binary64) is not modelled. Guarded input classes "
               "(new findings, see notes/C15.md): INTEGER beyond 2^53 in magnitude, INT64_MIN, samples numpy.histogram cannot bin, "
-              "text longer than 64 characters, NaN in DOUBLE columns.")
+              "NaN in DOUBLE columns (skipped). Text longer than 64 characters (F-C15-9) is NOT skipped: its frequent values, order and "
+              "transitions are judged on the values cut to 64 characters, everything else literally. The frame state is modelled as "
+              "the list of rows (append = snoc); other DataFrame mutators are not modelled.")
 DESIGN_REF = "DESIGN.md section 8, C15"
 COQ_IMPORTS = "From Orso Require Import Model.C15."
 COQ_CHECKS = {"ord": "c15_check_ord", "text": "c15_check_text", "bool": "c15_check_bool", "plain": "c15_check_plain"}
@@ -56,6 +65,10 @@ RULE = ("one-column frames of every supported type (INTEGER, DOUBLE, DECIMAL, VA
         "shapes constant / sorted / reverse-sorted / unsorted / few-distinct / many-distinct (above the sketch and frequent-value sizes), "
         "values incl. 0, negatives, fractions, multi-byte and prefix-sharing text; DataFrame.profile of the frame, and for EVERY cut "
         "1..n-1 TableProfile.__add__ of the two batch profiles (additive fields), full sum compared at one designated cut; "
+        "every case also as a session on ONE frame object: built with the first k rows (k = the designated cut, so every k in the "
+        "exhaustive stream; 0 = created empty), .profile read, grown by DataFrame.append, read again (30% of the random cases: 1-3 "
+        "reads on the way, positions may repeat), the last read compared field by field with the frame built at once; VARCHAR values "
+        "longer than 64 characters that share / do not share their first 64 characters (12% of the text pool + corpus + boundary stream); "
         "a case is non-trivial when the column has a non-null value; distinct by canonical JSON")
 TRUSTED = [
     "C15 model (coq/Model/C15.v): numbers as exact fixed-point integers z/scale with int() = Z.quot; the harness maps binary64 / Decimal / "
@@ -275,7 +288,10 @@ def observe(case):
         out["estimate"] = _num(col.estimate_cardinality()) if col is not None else None
     except Exception as e:
         return {"raise": type(e).__name__, "where": "DataFrame.profile", "msg": str(e)[:120]}
-    lefts, rights = {}, {}
+    try:
+        out["session"] = _session(t, cells, session_reads(case))
+    except Exception as e:
+        return {"raise": type(e).__name__, "where": "profile / append / profile on one frame", "msg": str(e)[:120]}
     quads = []
     cuts = range(1, n) if n <= 200 else sorted({1, n // 2, n - 1, int(PC_batch()), int(PC_batch()) + 1} & set(range(1, n)))
     out["cuts"] = list(cuts)
@@ -290,6 +306,34 @@ def observe(case):
         except Exception as e:
             return {"raise": type(e).__name__, "where": f"profile(a)+profile(b) at cut {k}", "msg": str(e)[:120]}
     out["quads"] = quads
+    return out
+
+
+def session_reads(case):
+    """Row counts at which the growing frame is profiled before it is complete (non-decreasing, within
+    0..n).  Default: the designated cut (so the exhaustive stream starts the session at every position
+    in turn), 0 = a frame created empty; frames built by repetition grow by their last period."""
+    n = len(case["values"]) * int(case.get("rep", 1))
+    r = case.get("reads")
+    if r is None:
+        if int(case.get("rep", 1)) != 1:
+            r = [n - len(case["values"])]
+        else:
+            r = [case.get("cut") or 0]
+    return sorted(min(max(int(k), 0), n) for k in r) or [0]
+
+
+def _session(t, cells, reads):
+    """profile / append / profile ... on ONE DataFrame object; nothing else is profiled meanwhile."""
+    frame = _frame(t, cells[:reads[0]])
+    pos = reads[0]
+    out = []
+    for k in list(reads) + [len(cells)]:
+        for v in cells[pos:k]:
+            frame.append({"c": py_value(t, v)})
+        pos = k
+        col = frame.profile.column("c")
+        out.append([k, _canon(t, col), _num(col.estimate_cardinality()) if col is not None else None])
     return out
 
 
@@ -327,13 +371,13 @@ def _order_spec(d):
     return (0 if up and down else (1 if up else -1)), tr
 
 
-def oracle(case, obs):
-    t = case["type"]
-    cells = column(case)
+def _judge(t, cells, w, estimate, literal=False):
+    """The per-column clauses of the property, read literally, on ONE observed profile `w` of a frame holding
+    `cells`.  F-C15-9 (known): VarcharProfiler cuts values to 64 characters before it computes frequent values,
+    order and transitions; unless `literal`, those three are judged against the values cut to 64 characters
+    (what C15_frequent_values_text_clipped / C15_order_transitions_text prove) when the column holds a longer
+    value - everything else (count, missing, extremes, the distinct count) is judged on the values themselves."""
     n = len(cells)
-    if "raise" in obs:
-        return f"profiling must report a profile for every column of a supported type; {obs['where']} raised {obs['raise']}: {obs.get('msg')}"
-    w = obs["whole"]
     if w is None:
         return "the column is missing from the table profile"
     nulls = sum(1 for v in cells if is_null(t, v))
@@ -343,6 +387,7 @@ def oracle(case, obs):
         return f"missing must be the number of nulls {nulls}, got {w['missing']}"
     data = [v for v in cells if not is_null(t, v)]
     want_min = want_max = None
+    distinct = None
     if t in ORD_TYPES:
         sc = scale_of(t)
         ex = [exact(t, v) for v in data]
@@ -354,8 +399,13 @@ def oracle(case, obs):
         if hs != len(ex):
             return f"histogram counts must sum to the number of non-null values {len(ex)}, got {hs}"
         keyed = ex
+        distinct = len(set(ex))
     elif t == "VARCHAR":
         keyed = data
+        distinct = len(set(data))
+        width = PC().SIXTY_FOUR_BYTES
+        if not literal and any(len(v) > width for v in data):
+            keyed = [v[:width] for v in data]            # F-C15-9
     else:
         keyed = None
     if keyed is not None:
@@ -382,19 +432,60 @@ def oracle(case, obs):
             for x, c in freq.items():
                 if x not in listed and c > low:
                     return f"unlisted value {x!r} occurs {c} times, more often than a listed value ({low})"
-        if len(freq) < PC().KVM_SIZE and obs["estimate"] != len(freq):
-            return f"distinct-count estimate must be exact below the sketch size: {len(freq)} distinct values, estimate {obs['estimate']}"
+        if distinct < PC().KVM_SIZE and estimate != distinct:
+            return f"distinct-count estimate must be exact below the sketch size: {distinct} distinct values, estimate {estimate}"
     if t in NUM_TYPES or t == "VARCHAR":
         d = keyed
         want = _order_spec(d) if d else (None, 0)
         if (w["order"], w["transitions"]) != want:
             return f"order/transitions must match the data {want}, got {(w['order'], w['transitions'])}"
+    return None
+
+
+def _first_difference(a, b):
+    if a is None or b is None:
+        return "one of them has no column profile"
+    for k in a:
+        if a[k] != b.get(k):
+            return f"{k}: {a[k]!r} vs {b.get(k)!r}"[:300]
+    return None
+
+
+def oracle(case, obs, literal=False):
+    t = case["type"]
+    cells = column(case)
+    n = len(cells)
+    if "raise" in obs:
+        return f"profiling must report a profile for every column of a supported type; {obs['where']} raised {obs['raise']}: {obs.get('msg')}"
+    w = obs["whole"]
+    why = _judge(t, cells, w, obs["estimate"], literal)
+    if why is not None:
+        return why
     # additivity: every cut
     wq = [w["count"], w["missing"], w["minimum"], w["maximum"]]
     for k, q in zip(obs["cuts"], obs["quads"]):
         if q != wq:
             return (f"profiles must be additive: cut at {k}: profile(a)+profile(b) has count/missing/minimum/maximum {q}, "
                     f"profile(a++b) has {wq}")
+    # the same clauses for the frame as it is at every later moment: one frame object, profiled, grown by
+    # DataFrame.append, profiled again ...  ("for every column": the column the frame holds when it is profiled)
+    prev = None
+    for k, prof, est in obs.get("session", []):
+        how = (f"a frame created with {k} rows" if prev is None else
+               f"the frame that was profiled at {prev} rows and then grown to {k} rows by append")
+        if k == 0 and prof is None:
+            prev = k
+            continue            # no rows: no column profile, nothing is claimed
+        why = _judge(t, cells[:k], prof, est, literal)
+        if why is not None:
+            return f"{how} is profiled: {why}"
+        prev = k
+    if obs.get("session"):
+        k, prof, est = obs["session"][-1]
+        diff = _first_difference(w, prof) or (None if est == obs["estimate"] else f"estimate: {obs['estimate']} vs {est}")
+        if k != n or diff is not None:
+            return (f"the profile must be a function of the rows the frame holds: a frame built with all {n} rows at once and a frame "
+                    f"grown to the same rows by append (profiled on the way at {[r[0] for r in obs['session'][:-1]]} rows) give different profiles - {diff}")
     return None
 
 
@@ -429,8 +520,8 @@ def _guard(t, cells):
         return "F-C15-6"
     if t in ORD_TYPES and data and _hist_unbinnable(_floats_seen(t, data)):
         return "F-C15-7"
-    if t == "VARCHAR" and any(len(v) > PC().SIXTY_FOUR_BYTES for v in data):
-        return "F-C15-9"
+    # F-C15-9 (VARCHAR longer than 64 characters) is no longer skipped: the oracle judges the three statistics the
+    # finding is about on the cut values and everything else literally, and the Coq model covers the class.
     return None
 
 
@@ -470,6 +561,13 @@ def known(case, obs):
         return g
     if _sum_inexact(t, cells):
         return "F-C15-11"
+    for k in session_reads(case):           # the frame is also profiled while it holds only its first k rows
+        if 0 < k < len(cells):
+            g = _guard(t, cells[:k])
+            if g is not None:
+                return g
+            if _sum_inexact(t, cells[:k]):
+                return "F-C15-11"
     if t in ORD_TYPES and len(cells) <= 200:
         for k in range(1, len(cells)):
             for part in (cells[:k], cells[k:]):
@@ -492,7 +590,7 @@ KNOWN_WITNESSES = {
 def known_still_fails(fid, w):
     """Witness replay for known findings: the literal oracle, without the guard."""
     obs = observe(w)
-    return oracle(w, obs)
+    return oracle(w, obs, literal=True)
 
 
 # ----------------------------------------------------------------------------- to_coq
@@ -577,14 +675,37 @@ def _obs_term(case, obs, val, vtype, edges=None):
                 runs.append([1, q])
         quads = [L.pair(L.nat(k), L.pair(L.Z(q[0]), L.Z(q[1]), _optz(q[2]), _optz(q[3]))) for k, q in runs]
     est = obs["estimate"] if isinstance(obs["estimate"], int) else -1
-    return "(mko %s %s %s %s : obs %s)" % (w, L.opt(cut), L.lst(quads), L.Z(est), vtype)
+    # the session on one frame object: every read before the last as (rows, observed profile); the last one in
+    # full unless it is identical, field by field, to the profile of the frame built at once (then None: the
+    # model's last read is compared with that same term)
+    sess = obs.get("session") or []
+    if not sess or sess[-1][0] != len(column(case)):
+        return None
+    reads = []
+    for k, prof, _e in sess[:-1]:
+        if prof is None:
+            reads.append(L.pair(L.N(k), "None"))
+        else:
+            pt = _profile_term(prof, val)
+            if pt is None:
+                return None
+            reads.append(L.pair(L.N(k), "(Some %s)" % pt))
+    final = "None"
+    if sess[-1][1] != obs["whole"]:
+        if sess[-1][1] is None:
+            return None
+        ft = _profile_term(sess[-1][1], val, edges)
+        if ft is None:
+            return None
+        final = "(Some %s)" % ft
+    return "(mko %s %s %s %s %s %s : obs %s)" % (w, L.opt(cut), L.lst(quads), L.Z(est), L.lst(reads), final, vtype)
 
 
 FALSE_CASE = {
-    "ord": "(true, (1)%Z, ([] : list (option Z)), 1%nat, ([] : list (Z * N)), ([] : list (N * Z)), mko (empty_profile (1)%Z (0)%Z) None [] (0)%Z)",
-    "text": "(([] : list (option (list N))), 1%nat, [], mko (empty_profile (1)%Z (0)%Z) None [] (0)%Z)",
-    "bool": "(([] : list (option bool)), 1%nat, mko (empty_profile (1)%Z (0)%Z) None [] (0)%Z)",
-    "plain": "(false, ([] : list ucell), 1%nat, mko (empty_profile (1)%Z (0)%Z) None [] (0)%Z)",
+    "ord": "(true, (1)%Z, ([] : list (option Z)), 1%nat, ([] : list (Z * N)), ([] : list (N * Z)), mko (empty_profile (1)%Z (0)%Z) None [] (0)%Z [] None)",
+    "text": "(([] : list (option (list N))), 1%nat, [], mko (empty_profile (1)%Z (0)%Z) None [] (0)%Z [] None)",
+    "bool": "(([] : list (option bool)), 1%nat, mko (empty_profile (1)%Z (0)%Z) None [] (0)%Z [] None)",
+    "plain": "(false, ([] : list ucell), 1%nat, mko (empty_profile (1)%Z (0)%Z) None [] (0)%Z [] None)",
 }
 
 
@@ -657,6 +778,11 @@ WORDS = ["", "a", "b", "ab", "abc", "abd", "b\u00e9", "\u00e9", "\u00e9a", "zz",
          "abcdefg\u00e9", "abcdefg", "\u00ff\u00ff\u00ff\u00ff", "\U0010ffff", "na\u00efve", "\u65e5\u672c\u8a9e", "\u65e5\u672c", "x" * 64, "x" * 63 + "y"]
 
 
+LONG_STEMS = ["https://example.com/a/rather/long/and/boring/common/prefix/of/a/path/", "x" * 70,
+              "/var/log/orso/\u65e5\u672c\u8a9e/\u00e9t\u00e9/2026-10-02/worker-0000000000000000000000000000000000/"]
+assert all(len(x) >= 64 for x in LONG_STEMS)
+
+
 def _pool(rng, t, size):
     """`size` distinct non-null values of type t (as case encodings)."""
     out = []
@@ -681,7 +807,12 @@ def _pool(rng, t, size):
             sc = rng.choice([0, 1, 2, 6])
             v = [rng.choice([0, 1, -1, 15, -15, 99, -99, rng.randint(-1000, 1000), rng.randint(-10 ** 7, 10 ** 7)]), sc]
         elif t == "VARCHAR":
-            if rng.random() < 0.6:
+            r_ = rng.random()
+            if r_ < 0.12:
+                # longer than 64 characters; values sharing their first 64 characters (and values differing inside them)
+                stem = rng.choice(LONG_STEMS)
+                v = rng.choice([stem[:64], stem[:63], stem[:40] + "#" + stem[41:64]]) + rng.choice(["", "a", "b", "0001", "0002/index.html", "\u00e9", stem[:8]])
+            elif r_ < 0.6:
                 v = rng.choice(WORDS)
             else:
                 v = "".join(rng.choice(["a", "b", "c", "z", "\u00e9", "\u20ac", "\U0001f600", " ", "A", "\x00"]) for _ in range(rng.randint(0, 12)))
@@ -758,7 +889,12 @@ def _random_case(rng, t=None, nmax=60):
     n = min(n, nmax)
     vals, _, _ = _column(rng, t, n)
     cut = rng.randint(1, n - 1) if n > 1 else None
-    return {"type": t, "values": vals, "cut": cut}
+    case = {"type": t, "values": vals, "cut": cut}
+    if rng.random() < 0.3:
+        # a longer session on one frame object: 1-3 reads on the way (a position may repeat = profile read twice
+        # in the same state; 0 = the frame is created empty; n = read twice at the end)
+        case["reads"] = sorted(rng.randint(0, n) for _ in range(rng.randint(1, 3)))
+    return case
 
 
 def corpus():
@@ -792,6 +928,31 @@ def corpus():
     yield {"type": "ARRAY", "values": [[1, 2], None, []], "cut": 1}
     yield {"type": "STRUCT", "values": [{"a": 1}, None], "cut": 1}
     yield {"type": "UNTYPED", "values": [1, ["nan"], None, "a"], "cut": 2}
+    # round 2: text longer than 64 characters - the sketch sees the whole strings (distinct count exact below the
+    # sketch size although frequent values / order / transitions see only the first 64 characters, F-C15-9)
+    stem = LONG_STEMS[0]
+    urls = [f"{stem}{i:04d}/index.html" for i in range(12)]
+    yield {"type": "VARCHAR", "values": urls + [None] + urls[:3], "cut": 5}
+    yield {"type": "VARCHAR", "values": urls[:5] + ["a", "b", None, "a"] + urls[:2], "cut": 6}
+    yield {"type": "VARCHAR", "values": ["x" * 64 + "a", "x" * 64 + "b", "x" * 64], "cut": 1}
+    yield {"type": "VARCHAR", "values": ["x" * 63 + c for c in "abcdefgh"] + [None, "x" * 63 + "a"], "cut": 4}
+    yield {"type": "VARCHAR", "values": ["y" * 30 + c + "y" * 40 for c in "abc"] + ["y" * 71], "cut": 2}
+    yield {"type": "VARCHAR", "values": [stem[:64] + "%02d" % (i % 31) for i in range(40)], "cut": 20, "reads": [0, 31]}
+    yield {"type": "VARCHAR", "values": [stem[:64] + "%02d" % i for i in range(34)], "cut": 17}
+    for width in (130, 260, 520, 1030):     # values that differ only after `width` characters (any trimming width below that)
+        yield {"type": "VARCHAR", "values": [(stem * 16)[:width] + "a", None, (stem * 16)[:width] + "b", (stem * 16)[:width] + "a"], "cut": 2}
+    # round 2: one frame object over time (profile, append, profile ...), every type
+    yield {"type": "INTEGER", "values": [3, None, 5, 4, -7, None, 11, 100], "cut": 4, "reads": [4, 7]}
+    yield {"type": "VARCHAR", "values": ["b", "a", "b", None, "a", "a", "c", None], "cut": 4, "reads": [4, 7]}
+    yield {"type": "DOUBLE", "values": [1500000, None, -2700000], "cut": 1, "reads": [0, 1, 1, 3]}
+    yield {"type": "DECIMAL", "values": [[110, 2], [11, 1], None, [-5, 6]], "cut": 2, "reads": [1, 2, 3]}
+    yield {"type": "DATE", "values": [18262, None, 0, -1, 18262], "cut": 2, "reads": [2, 2]}
+    yield {"type": "TIMESTAMP", "values": [-1, 1500000, None, 0], "cut": 3, "reads": [1]}
+    yield {"type": "BOOLEAN", "values": [True, None, False, False], "cut": 1, "reads": [1, 3]}
+    yield {"type": "ARRAY", "values": [[1], None, [], [2, 3]], "cut": 2, "reads": [0, 2]}
+    yield {"type": "STRUCT", "values": [{"a": 1}, None, {"a": 2}], "cut": 1, "reads": [1, 2]}
+    yield {"type": "UNTYPED", "values": [1, ["nan"], None, "a", 2], "cut": 2, "reads": [2, 4]}
+    yield {"type": "INTEGER", "values": list(range(40)), "cut": 20, "reads": [10, 31, 32, 33]}
     # frames above the 25000-row batch size (from_dataframe adds the batch profiles itself)
     b = PC_batch()
     if b <= 30000 and b % 8 == 0:
@@ -847,7 +1008,9 @@ def _boundary_case(rng):
         return {"type": "DOUBLE", "values": [rng.choice([["nan"], 0, 1500000, None, -2500000]) for _ in range(n)], "cut": None}
     if r < 0.8:
         base = rng.choice(["x", "\u00e9", "ab"]) * 70
-        pool = [base[:63], base[:64], base[:65], base[:64] + "a", base[:64] + "b", base[:70], "y", None]
+        pool = [base[:63], base[:64], base[:65], base[:64] + "a", base[:64] + "b", base[:70], "y", None,
+                base[:70] * 4 + "a", base[:70] * 4 + "b"]      # distinct only after 280 characters
+        n = rng.randint(1, 10)
         return {"type": "VARCHAR", "values": [rng.choice(pool) for _ in range(n)], "cut": (rng.randint(1, n - 1) if n > 1 else None)}
     pool = [10 ** 13, 10 ** 13 + 1, 10 ** 13 + 15625, 7 * 10 ** 13, 0, None]
     return {"type": "DOUBLE", "values": [rng.choice(pool) for _ in range(n)], "cut": None}
@@ -902,5 +1065,13 @@ def classify(case, obs):
             yield "has-negative"
         if t == "VARCHAR" and any(ord(ch) > 127 for s in data for ch in s):
             yield "multi-byte-text"
+        if t == "VARCHAR" and any(len(s) > PC().SIXTY_FOUR_BYTES for s in data):
+            yield "text-longer-than-64"
+            if len(set(data)) != len({s[:PC().SIXTY_FOUR_BYTES] for s in data}):
+                yield "text-distinct-values-sharing-first-64"
+    rs = session_reads(case)
+    yield "session-reads:" + str(min(len(rs), 3)) + ("+" if len(rs) > 3 else "")
+    if rs[0] == 0:
+        yield "session-starts-empty"
     if "raise" in obs:
         yield "raised:" + obs["raise"]
